@@ -13,7 +13,7 @@ for h in "tcell H00_arith" "tcell H15_goto" "tcell H15_color" "tcell H07_ops" "t
     r=$(timeout 900 ./run.sh run -pkg $1 -harness $2 -solver $sv -maxsecs 600 -v 1 2>&1 | grep "^harness\|  solver:\|  assert " | sed 's/, [0-9.]*s$//; s/) [0-9.]*s max.*//; s/instrs, .*/instrs/')
     echo "== $2 [$sv]" >> $out
     echo "$r" >> $out
-    case "$r" in *timeout:*) echo "(skipped: $2 under $sv did not finish within 600 s)" | tee -a $out; continue;; esac
+    case "$r" in *timeout:*|*unknown:*) echo "(skipped: $2 under $sv did not finish - deadline or solver timeouts -, so there is no verdict to compare)" | tee -a $out; continue;; esac
     if [ -z "$ref" ]; then ref="$r"; elif [ "$r" != "$ref" ]; then echo "DISAGREE $2: $sv differs from z3-new" | tee -a $out; rc=1; fi
   done
 done
